@@ -6,6 +6,7 @@ import (
 	"database/sql/driver"
 	"errors"
 	"fmt"
+	"github.com/quickfixgo/quickfix/verifsim/simsync"
 	"strings"
 	"sync"
 
@@ -18,12 +19,12 @@ import (
 // statements the simulator selects (the SQL store's public seam: SQLStoreDriver).
 
 type sqlFaults struct {
-	mu    sync.Mutex
-	n     int            // statements seen (Exec/Query/Begin/Commit)
-	FailAt map[int]bool  // statement indices to fail
+	mu       sync.Mutex
+	n        int            // statements seen (Exec/Query/Begin/Commit)
+	FailAt   map[int]bool   // statement indices to fail
 	FailKind map[string]int // "begin"/"insert"/"update"/"commit"/"delete"/"select": fail the k-th next occurrence (1-based), 0 off
-	Fired map[string]int
-	Log   []string
+	Fired    map[string]int
+	Log      []string
 }
 
 var SQLFaults = &sqlFaults{FailAt: map[int]bool{}, FailKind: map[string]int{}, Fired: map[string]int{}}
@@ -79,10 +80,16 @@ func (d *simSQLDriver) Open(name string) (driver.Conn, error) {
 	if err != nil {
 		return nil, err
 	}
-	return &simSQLConn{c.(*sqlite3.SQLiteConn)}, nil
+	return &simSQLConn{c: c.(*sqlite3.SQLiteConn)}, nil
 }
 
-type simSQLConn struct{ c *sqlite3.SQLiteConn }
+// Statements outside a transaction are scheduling points in interleaving mode (the caller parks BEFORE the
+// statement runs, holding no database lock); statements inside a transaction are not, so that no task is
+// ever parked while sqlite holds a lock for it.
+type simSQLConn struct {
+	c    *sqlite3.SQLiteConn
+	inTx bool
+}
 
 func (c *simSQLConn) Prepare(q string) (driver.Stmt, error) { return c.c.Prepare(q) }
 func (c *simSQLConn) Close() error                          { return c.c.Close() }
@@ -90,6 +97,7 @@ func (c *simSQLConn) Begin() (driver.Tx, error) {
 	return c.BeginTx(context.Background(), driver.TxOptions{})
 }
 func (c *simSQLConn) BeginTx(ctx context.Context, o driver.TxOptions) (driver.Tx, error) {
+	simsync.Yield("sql:begin")
 	if err := SQLFaults.gate("begin"); err != nil {
 		return nil, err
 	}
@@ -97,15 +105,22 @@ func (c *simSQLConn) BeginTx(ctx context.Context, o driver.TxOptions) (driver.Tx
 	if err != nil {
 		return nil, err
 	}
-	return &simSQLTx{tx}, nil
+	c.inTx = true
+	return &simSQLTx{tx, c}, nil
 }
 func (c *simSQLConn) ExecContext(ctx context.Context, q string, args []driver.NamedValue) (driver.Result, error) {
+	if !c.inTx {
+		simsync.Yield("sql:" + stmtKind(q))
+	}
 	if err := SQLFaults.gate(stmtKind(q)); err != nil {
 		return nil, err
 	}
 	return c.c.ExecContext(ctx, q, args)
 }
 func (c *simSQLConn) QueryContext(ctx context.Context, q string, args []driver.NamedValue) (driver.Rows, error) {
+	if !c.inTx {
+		simsync.Yield("sql:" + stmtKind(q))
+	}
 	if err := SQLFaults.gate(stmtKind(q)); err != nil {
 		return nil, err
 	}
@@ -113,16 +128,20 @@ func (c *simSQLConn) QueryContext(ctx context.Context, q string, args []driver.N
 }
 func (c *simSQLConn) Ping(ctx context.Context) error { return c.c.Ping(ctx) }
 
-type simSQLTx struct{ tx driver.Tx }
+type simSQLTx struct {
+	tx driver.Tx
+	c  *simSQLConn
+}
 
 func (t *simSQLTx) Commit() error {
+	t.c.inTx = false
 	if err := SQLFaults.gate("commit"); err != nil {
 		_ = t.tx.Rollback()
 		return err
 	}
 	return t.tx.Commit()
 }
-func (t *simSQLTx) Rollback() error { return t.tx.Rollback() }
+func (t *simSQLTx) Rollback() error { t.c.inTx = false; return t.tx.Rollback() }
 
 func init() {
 	sql.Register("simsqlite3", &simSQLDriver{inner: &sqlite3.SQLiteDriver{}})
